@@ -164,6 +164,9 @@ unsigned int Interpolation::Locate(double x)
 	{
 		// Use Bisection() or the Hunt method, depending of the last calls were correlated.
 		j = correlated_calls ? Hunt(x) : Bisection(x, 0, N - 1);
+		// At a tabulated abscissa both adjacent intervals contain x. Always return the right one (as Bisection() does), such that the result does not depend on the search method.
+		if(j < N - 2 && x == x_values[j + 1])
+			j++;
 	}
 	// Check if the points are still correlated.
 	correlated_calls = (fabs(j - jLast) < 10);
